@@ -116,7 +116,27 @@ fn all_digits(s: &str) -> bool {
     s.bytes().all(|b| b.is_ascii_digit())
 }
 
+/// Formatting a lenient reader might tolerate without changing what the numeral denotes: surrounding ASCII
+/// white space, one leading '+', '_' as a digit separator.  Returns the bare numeral if `s` carries any.
+fn strip_formatting(s: &str) -> Option<String> {
+    let t = s.trim_matches(|c: char| c == ' ' || c == '\t' || c == '\n');
+    let t = t.strip_prefix('+').unwrap_or(t);
+    let t: String = t.chars().filter(|c| *c != '_').collect();
+    if t != s { Some(t) } else { None }
+}
+
+/// a formatted numeral may be rejected; if it is accepted it must be read as the bare numeral's number
+fn lenient(e: StrExpect) -> StrExpect {
+    match e {
+        StrExpect::IfAcceptedExactly(v) => StrExpect::Lenient(Some(v)),
+        other => other,
+    }
+}
+
 fn expect_decimal_str(s: &str) -> StrExpect {
+    if let Some(bare) = strip_formatting(s) {
+        return lenient(expect_decimal_str(&bare));
+    }
     let parts: Vec<&str> = s.split('.').collect();
     if parts.len() > 2 {
         return StrExpect::MustReject("more than one dot");
@@ -142,6 +162,9 @@ fn expect_decimal_str(s: &str) -> StrExpect {
 }
 
 fn expect_uint_str(s: &str) -> StrExpect {
+    if let Some(bare) = strip_formatting(s) {
+        return lenient(expect_uint_str(&bare));
+    }
     if !all_digits(s) {
         return StrExpect::MustReject("non-digit character");
     }
